@@ -1,29 +1,127 @@
-import Dbg.Lemmas.Block64
+import Dbg.Lemmas.LmerRefine
+import Dbg.Lemmas.IterProofs
 /-! # C17 — Fixed-size DNA strings (Lmer) behave as strings
 
-Proved so far (word level): `block_get`/`block_set` are the `Kmer32` accessors, so a single-base write
-changes exactly the addressed base of its word; `new` stores the length byte.  The multi-word
-`set_slice_mut`/`rc` are modelled bit for bit and compared with the crate on every run (partial). -/
+For every word count `n ≥ 1`: `Lmer.toSeq l` (the first `len` lanes of the words) is the string a value
+stands for, `Lmer.Inv l` its representation invariant (the stored length fits before the length byte, the
+lanes between the end of the string and the length byte are zero).  `new` / `from_slice` establish it;
+single-base and packed multi-base writes inside the string and `rc` preserve it, keep the stored length
+and word count, and act on `toSeq` as the same operation on a plain list (`C17_history`); every observer
+is a function of `toSeq`; the representation is canonical, so derived `==`/`Hash` are those of the string;
+`get_kmer` and the k-mer iterators are those of the string (`C17_faithful`, C13). -/
 namespace Lmer
+open Kmer (Cfg St)
 
 theorem C17_word_set (b : BitVec 64) (i v : Nat) (hi : i < 32) (hv : v < 4) :
     Block64.blockSeq (blockSet b i v) = (Block64.blockSeq b).set i v := by
   rw [Block64.lmer_blockSet_eq]; exact Kmer.toSeq_setMut Block64.k32_wf b i v hi hv
 
 theorem C17_word_get (b : BitVec 64) (i : Nat) (hi : i < 32) : (Block64.blockSeq b)[i]? = some (blockGet b i) := by
-  rw [Block64.lmer_blockGet_eq]; simp [Block64.blockSeq, Kmer.toSeq, hi, Block64.k32]
+  rw [Block64.lmer_blockGet_eq]; simp [Block64.blockSeq, Kmer.toSeq, hi]
 
-/-- `new(n, len)` reports `len` (for `len < 256`) and consists of zero lanes -/
+/-- `new(n, len)` reports `len` (for `len < 256`) -/
 theorem C17_new_len (n len : Nat) (hn : 1 ≤ n) (hl : len < 256) :
-    ∃ l, new n len = some l ∧ Lmer.len l = some len ∧ l.n = n := by
-  unfold new
-  simp only [show ¬ n = 0 by omega, if_false]
-  refine ⟨_, rfl, ?_, by simp [T.n]⟩
-  simp only [Lmer.len, T.n, List.length_set, List.length_replicate]
-  rw [List.getElem?_set_self (by simp; omega)]
-  simp only [Option.map_some, Option.some.injEq]
-  rw [BitVec.toNat_and, BitVec.toNat_and, BitVec.toNat_ofNat, show (0xff#64).toNat = 2 ^ 8 - 1 from rfl,
-    Nat.and_two_pow_sub_one_eq_mod, Nat.and_two_pow_sub_one_eq_mod]
-  omega
+    ∃ l, new n len = some l ∧ Lmer.len l = some len ∧ l.n = n := new_len n len hn hl
+
+/-- **C17 (constructors).** `new(len)` is `len` A's; `from_slice(seq)` is `seq` — for every capacity and
+    every length up to `max_len = 32n - 4` (and the 255 the length byte can hold). -/
+theorem C17_constructors (n : Nat) (hn : 1 ≤ n) :
+    (∀ L, L ≤ maxLen n → L < 256 → ∃ l, new n L = some l ∧ Inv l ∧ l.n = n ∧ len l = some L ∧ toSeq l = List.replicate L 0) ∧
+    (∀ seq : List Nat, seq.length ≤ maxLen n → seq.length < 256 → (∀ b ∈ seq, b < 4) →
+      ∃ l, fromSlice n seq = some l ∧ Inv l ∧ l.n = n ∧ toSeq l = seq) := by
+  have hm : ∀ L, L ≤ maxLen n → L + 4 ≤ 32 * n := by intro L h; unfold maxLen at h; omega
+  refine ⟨fun L h1 h2 => ?_, fun seq h1 h2 hv => fromSlice_spec n seq hn (hm _ h1) h2 hv⟩
+  obtain ⟨l, e, i, hn', hl, s⟩ := new_spec n L hn (hm L h1) h2
+  exact ⟨l, e, i, hn', by rw [len_lanes l i.n_pos, hl], s⟩
+
+/-- value-producing operations of a history -/
+inductive Op | set (pos v : Nat) | setSlice (pos nB : Nat) (value : BitVec 64) | rc
+
+def run (l : T) : Op → Option T
+  | .set pos v => setMut l pos v | .setSlice pos nB value => setSliceMut l pos nB value | .rc => rc l
+def runSpec (s : List Nat) : Op → List Nat
+  | .set pos v => s.set pos v | .setSlice pos nB value => KSpec.setSlice s pos nB value | .rc => KSpec.rc s
+/-- writes inside the string; packed runs of 1..32 bases -/
+def Op.ok (s : List Nat) : Op → Prop
+  | .set pos v => pos < s.length ∧ v < 4 | .setSlice pos nB _ => 1 ≤ nB ∧ nB ≤ 32 ∧ pos + nB ≤ s.length | .rc => True
+
+theorem C17_step (l : T) (h : Inv l) (op : Op) (hok : op.ok (toSeq l)) :
+    ∃ l', run l op = some l' ∧ Inv l' ∧ l'.n = l.n ∧ len l' = len l ∧ toSeq l' = runSpec (toSeq l) op := by
+  cases op with
+  | set pos v =>
+    obtain ⟨l', e, i, n, ln, s⟩ := setMut_spec l h pos v (by rw [← toSeq_length l h]; exact hok.1) hok.2
+    exact ⟨l', e, i, n, by rw [len_lanes l' i.n_pos, len_lanes l h.n_pos, ln], s⟩
+  | setSlice pos nB value =>
+    obtain ⟨l', e, i, n, ln, s⟩ := setSliceMut_spec l h pos nB value hok.1 hok.2.1 (by rw [← toSeq_length l h]; exact hok.2.2)
+    exact ⟨l', e, i, n, by rw [len_lanes l' i.n_pos, len_lanes l h.n_pos, ln], s⟩
+  | rc =>
+    obtain ⟨r, e, i, n, s⟩ := rc_spec l h
+    refine ⟨r, e, i, n, ?_, s⟩
+    rw [len_spec r i, len_spec l h, s, KSpec.rc_length]
+
+def runAll : List Op → T → Option T
+  | [], l => some l
+  | op :: ops, l => (run l op).bind (runAll ops)
+def specAll : List Op → List Nat → List Nat
+  | [], s => s
+  | op :: ops, s => specAll ops (runSpec s op)
+def okAll : List Op → List Nat → Prop
+  | [], _ => True
+  | op :: ops, s => op.ok s ∧ okAll ops (runSpec s op)
+
+/-- **C17 (histories).** Any sequence of in-range single-base writes, packed writes (runs crossing a
+    word boundary, runs in the word that holds the length byte) and reverse complements changes exactly
+    the addressed bases, never the stored length or the word count, and never panics. -/
+theorem C17_history (ops : List Op) (l : T) (h : Inv l) (hok : okAll ops (toSeq l)) :
+    ∃ l', runAll ops l = some l' ∧ Inv l' ∧ l'.n = l.n ∧ len l' = len l ∧ toSeq l' = specAll ops (toSeq l) := by
+  induction ops generalizing l with
+  | nil => exact ⟨l, rfl, h, rfl, rfl, rfl⟩
+  | cons op ops ih =>
+    obtain ⟨l1, e1, i1, n1, len1, s1⟩ := C17_step l h op hok.1
+    obtain ⟨l2, e2, i2, n2, len2, s2⟩ := ih l1 i1 (by rw [s1]; exact hok.2)
+    exact ⟨l2, by simp only [runAll, e1, Option.bind_some]; exact e2, i2, n2.trans n1, len2.trans len1, by rw [s2, s1]; rfl⟩
+
+/-- **C17 (observers).** -/
+theorem C17_observers (l : T) (h : Inv l) :
+    len l = some (toSeq l).length ∧ (∀ pos, pos < (toSeq l).length → get l pos = (toSeq l)[pos]?) ∧
+    toBytes l = some (toSeq l) ∧ (toSeq l).length ≤ maxLen l.n ∧ (∀ b ∈ toSeq l, b < 4) := by
+  refine ⟨len_spec l h, fun pos hp => get_spec l h pos (by rwa [toSeq_length l h] at hp), toBytes_spec l h, ?_, toSeq_lt4 l⟩
+  rw [toSeq_length l h]; have := h.fits; unfold maxLen; omega
+
+/-- **C17 (canonical representation).** Same capacity and same bases ⇒ same words: derived `==` / `Hash`
+    agree with the plain string. -/
+theorem C17_repr_canonical (a b : T) (ha : Inv a) (hb : Inv b) (hn : a.n = b.n) : a = b ↔ toSeq a = toSeq b :=
+  ⟨fun h => by rw [h], repr_inj a b ha hb hn⟩
+
+/-- **C17 (routes agree).** Two histories to the same string end in the same words. -/
+theorem C17_routes_agree (ops₁ ops₂ : List Op) (a b : T) (ha : Inv a) (hb : Inv b) (hn : a.n = b.n)
+    (ok₁ : okAll ops₁ (toSeq a)) (ok₂ : okAll ops₂ (toSeq b)) (h : specAll ops₁ (toSeq a) = specAll ops₂ (toSeq b)) :
+    runAll ops₁ a = runAll ops₂ b := by
+  obtain ⟨a', ea, ia, na, _, sa⟩ := C17_history ops₁ a ha ok₁
+  obtain ⟨b', eb, ib, nb, _, sb⟩ := C17_history ops₂ b hb ok₂
+  rw [ea, eb, repr_inj a' b' ia ib (by rw [na, nb, hn]) (by rw [sa, sb, h])]
+
+/-- **C17 / C13 (k-mers).** An `Lmer` is a faithful container: `get_kmer(pos)` spells bases
+    `pos..pos+K` for every k-mer configuration, hence (C13) so do its iterators and terminal accessors. -/
+theorem C17_faithful (c : Cfg) (hc : c.WF) (l : T) (h : Inv l) : KIter.Faithful (KIter.ofLmer c l) (toSeq l) where
+  len := by show (len l).getD 0 = _; rw [len_spec l h]; rfl
+  base := toSeq_lt4 l
+  get := fun i hi => by
+    show get l i = _
+    rw [get_spec l h i (by rwa [toSeq_length l h] at hi), List.getElem?_eq_getElem hi]
+  kmer := fun pos hp => by
+    rw [toSeq_length l h] at hp
+    obtain ⟨s, e, i, t⟩ := getKmer_spec c hc l h pos hp
+    exact ⟨s, e, i, t⟩
+
+theorem C17_getKmer_guard (c : Cfg) (l : T) (h : Inv l) (pos : Nat) (hp : ¬ pos + c.K ≤ (toSeq l).length) :
+    getKmer c l pos = none := getKmer_guard c l h pos (by rwa [toSeq_length l h] at hp)
+
+/-- non-vacuity: a 3-word Lmer at `max_len = 92`, a run crossing the first word boundary, a run in the
+    word holding the length byte, then rc -/
+example : okAll [.setSlice 20 30 0xDEADBEEF12345678#64, .set 91 3, .setSlice 70 22 0#64, .rc] (List.replicate 92 1) := by
+  simp only [okAll, Op.ok, runSpec, KSpec.rc_length, KSpec.setSlice, List.length_map, List.length_zipIdx, List.length_set,
+    List.length_replicate]
+  decide
 
 end Lmer
